@@ -98,6 +98,10 @@ def run_case(c):
         # real-valued tensors (float dtype) against possibly complex Hamiltonians
         for _i in range(len(psi.A)):
             psi.A[_i] = psi.A[_i].real.copy()
+    if c['seed'] % 6 == 3:
+        # the same state with all bond labels shifted by a constant (non-zero leading label): the rule qd + left = right is unchanged
+        sh_ = int(rng.choice([-2, -1, 1, 3]))
+        psi.qD = [np.asarray(q) + sh_ for q in psi.qD]
     if c['seed'] % 7 == 2:
         h.integer_tensors(psi)          # integer dtype: the algorithms have to promote the tensors themselves
     v = oracle.mps_dense(psi.A)
